@@ -61,16 +61,25 @@ def keyed(sym, op, N, dom, compound, bs=None, countfield=None, conf='include'):
                     check(len(r) == 4 and r[3] == mult[i], 'count', r, mult[i])
                 check(sum(r[3] for r in out[1:]) == n, 'counts do not add up to nrows')
         elif op == 'conflicts':
-            ckw = dict(include='j') if conf == 'include' else dict(exclude='t') if conf == 'exclude' else \
+            ckw = dict(include='j') if conf in ('include', 'marker') else dict(exclude='t') if conf == 'exclude' else \
                 dict(include=['j', 't'], exclude=['t'])     # exclude overrides include
             missing = None
+            if conf == 'marker':
+                # a caller-declared missing marker: None is then an ordinary value
+                missing = 'NA'
+                for r in rows:
+                    if r[2] is None and sym.flag(r[0] + '.na'):
+                        r[2] = 'NA'
             out = [tuple(r) for r in petl.conflicts(table, 'k', missing=missing, **dict(kw, **ckw))]
             check(out[0] == tuple(HDR), 'header', out[0])
             oi = idx_of(out[1:])
 
             def disagree(a, b):
                 x, y = rows[a][2], rows[b][2]
-                return x is not None and y is not None and x != y
+                if missing is None:
+                    return x is not None and y is not None and x != y
+                # with a declared marker None is an ordinary value
+                return x != missing and y != missing and not cells_eq(x, y)
             for i in oi:
                 check(mult[i] > 1, 'conflicts returned a row of a non-duplicate group', rows[i])
                 members = [m for m in range(n) if _keq(keys[m], keys[i])]
@@ -82,6 +91,24 @@ def keyed(sym, op, N, dom, compound, bs=None, countfield=None, conf='include'):
                     check(i in oi, 'a two-member group that disagrees is missing from conflicts', rows[i])
         else:
             raise ValueError(op)
+
+
+def index0(sym, N, dom):
+    """key given as the integer 0 (first field) - not a falsy 'no key'."""
+    n = nrows(sym, 'n', N)
+    rows = [[cell(sym, 'r%d.k' % i, dom), 'T%d' % i] for i in range(n)]
+    table = [['k', 't']] + rows
+    mult = [sum(1 for j in range(n) if cells_eq(rows[i][0], rows[j][0])) for i in range(n)]
+    first = [not any(cells_eq(rows[i][0], rows[j][0]) for j in range(i)) for i in range(n)]
+    with pickle_stub(), private_tempdir() as td:
+        for key in (0, (0,)):
+            d = sorted(r[1] for r in list(petl.duplicates(table, key, tempdir=td))[1:])
+            u = sorted(r[1] for r in list(petl.unique(table, key, tempdir=td))[1:])
+            x = sorted(r[1] for r in list(petl.distinct(table, key, tempdir=td))[1:])
+            check(d == sorted('T%d' % i for i in range(n) if mult[i] > 1), 'duplicates(key=0)', key, rows, d)
+            check(u == sorted('T%d' % i for i in range(n) if mult[i] == 1), 'unique(key=0)', key, rows, u)
+            check(x == sorted('T%d' % i for i in range(n) if first[i]), 'distinct(key=0)', key, rows, x)
+        check(petl.isunique(table, 0) == all(m == 1 for m in mult), 'isunique(0)')
 
 
 def wholerow(sym, N, ncols, dom, bs=None):
@@ -146,9 +173,10 @@ def jobs(tier):
     add('distinct', N, 'M', False, countfield='n')
     add('distinct', N, 'Od2', True)
     add('distinct', N, 'Od2', True, countfield='n')
-    for conf in ('include', 'exclude', 'both'):
+    for conf in ('include', 'exclude', 'both', 'marker'):
         add('conflicts', N, 'O', False, conf=conf)
     add('conflicts', N, 'O', False, conf='include', bs=1)
+    out.append(dict(name='index0/n<=%d/O' % N, func='index0', params=dict(N=N, dom='O'), budget=B))
     for (n, nc, dom, bs) in ([(3, 1, 'Od2', None), (3, 1, 'Md2', 1), (2, 2, 'Od2', None), (3, 2, 'Id2', 1)] if q else
                              [(4, 1, 'Od2', None), (4, 1, 'Md2', 1), (3, 2, 'Od2', None), (4, 2, 'Id2', 1), (3, 2, 'Id2', 2)]):
         out.append(dict(name='wholerow/n<=%d/cols=%d/%s/bs=%s' % (n, nc, dom, bs), func='wholerow',
